@@ -304,3 +304,6 @@ func KnownFor(prop string) []string {
 	}
 	return r
 }
+
+// Children are auxiliary entry points ("vcheck child <name> ...") used by checks that need a real child process
+var Children = map[string]func(args []string) int{}
